@@ -2,7 +2,9 @@ package rules
 
 import (
 	"fmt"
+	"go/constant"
 	"go/token"
+	"math/big"
 	"sort"
 	"strings"
 
@@ -362,4 +364,117 @@ func (c *Ctx) reachedOnlyFrom(fn *ssa.Function, allowed func(root *ssa.Function)
 		return true, ""
 	}
 	return rec(fn)
+}
+
+// loopTrip matches a loop-continuation test on a counter — `L + c < K` with L
+// the loop symbol of a header phi that starts at a constant i0 and K constant —
+// and returns the number of iterations the loop performs when it runs to
+// exhaustion (K − c − i0 for a test at the top of the loop, one more for a
+// test at the bottom: the rotated form go/ssa emits for `for i := range K`),
+// the counter, and whether the atom takes the exit. The classic
+// `for i := 0; i < K; i++` and `for i := range K` both give K.
+func loopTrip(a an.PathAtom) (n int64, ph *ssa.Phi, exit bool, ok bool) {
+	x, y, op, isCmp := effCmp(a)
+	if !isCmp || (op != token.LSS && op != token.GEQ) {
+		return 0, nil, false, false
+	}
+	k, isC := y.ConstInt()
+	if !isC {
+		return 0, nil, false, false
+	}
+	nf, okN := an.Norm(x)
+	if !okN || nf.Mode != an.ModeNone || len(nf.Lin.T) != 1 || !nf.Lin.C.IsInt() {
+		return 0, nil, false, false
+	}
+	var sym string
+	for s, coef := range nf.Lin.T {
+		if coef.Cmp(big.NewRat(1, 1)) != 0 {
+			return 0, nil, false, false
+		}
+		sym = s
+	}
+	if !strings.HasPrefix(sym, "loop:") {
+		return 0, nil, false, false
+	}
+	x.Walk(func(e *an.Expr) bool {
+		if e.Op == an.OpLoop {
+			if p, isPhi := e.V.(*ssa.Phi); isPhi && an.LoopSym(p) == sym {
+				ph = p
+			}
+		}
+		return true
+	})
+	if ph == nil {
+		return 0, nil, false, false
+	}
+	// the constant the counter starts at: its value on the edges that enter the loop
+	i0, haveInit := int64(0), false
+	for i, pred := range ph.Block().Preds {
+		if ph.Block().Dominates(pred) {
+			continue // back edge
+		}
+		cst, isConst := ph.Edges[i].(*ssa.Const)
+		if !isConst || cst.Value == nil {
+			return 0, nil, false, false
+		}
+		v, exact := constant.Int64Val(constant.ToInt(cst.Value))
+		if !exact || (haveInit && v != i0) {
+			return 0, nil, false, false
+		}
+		i0, haveInit = v, true
+	}
+	if !haveInit {
+		return 0, nil, false, false
+	}
+	n = k - nf.Lin.C.Num().Int64() - i0
+	// rotated loop: the entry is guarded by its own `i0 < K` test and the body runs once before the
+	// first continuation test
+	for _, pred := range ph.Block().Preds {
+		if ph.Block().Dominates(pred) {
+			continue
+		}
+		if ifi, isIf := pred.Instrs[len(pred.Instrs)-1].(*ssa.If); isIf {
+			if bo, isBin := ifi.Cond.(*ssa.BinOp); isBin && bo.Op == token.LSS {
+				if cy, isConst := bo.Y.(*ssa.Const); isConst && cy.Value != nil {
+					if v, exact := constant.Int64Val(constant.ToInt(cy.Value)); exact && v == k {
+						n++
+					}
+				}
+			}
+		}
+	}
+	return n, ph, op == token.GEQ, true
+}
+
+// loopInit returns the constant a loop counter (the header phi behind loop
+// symbol sym, found in e) has on entry to its loop.
+func loopInit(e *an.Expr, sym string) (int64, bool) {
+	var ph *ssa.Phi
+	e.Walk(func(x *an.Expr) bool {
+		if x.Op == an.OpLoop {
+			if p, isPhi := x.V.(*ssa.Phi); isPhi && an.LoopSym(p) == sym {
+				ph = p
+			}
+		}
+		return true
+	})
+	if ph == nil {
+		return 0, false
+	}
+	i0, have := int64(0), false
+	for i, pred := range ph.Block().Preds {
+		if ph.Block().Dominates(pred) {
+			continue
+		}
+		cst, isConst := ph.Edges[i].(*ssa.Const)
+		if !isConst || cst.Value == nil {
+			return 0, false
+		}
+		v, exact := constant.Int64Val(constant.ToInt(cst.Value))
+		if !exact || (have && v != i0) {
+			return 0, false
+		}
+		i0, have = v, true
+	}
+	return i0, have
 }
